@@ -89,10 +89,18 @@ def gen_case(rng, ap=False):
             ev.append(("wd", p.name, rng.choice(pool)))
         elif r < 0.55:
             ev.append(("sleep", rng.choice([1, 2])))
-        elif r < 0.65:
-            ev.append(("setimp", gen_pol(rng)))
         elif r < 0.75:
-            ev.append(("setexp", gen_pol(rng)))
+            d = "imp" if r < 0.65 else "exp"
+            cur = c[d + "0"]
+            for e in ev:
+                if e[0] == "set" + d:
+                    cur = e[1]
+            if cur["policies"] and rng.random() < 0.3:
+                # the policy in force is EXTENDED by one statement (AddPolicy on an assigned policy), the assignment stays
+                st = gen_pol(rng)["policies"][0][0]
+                ev.append(("set" + d, {"default": cur["default"], "policies": [list(pl) for pl in cur["policies"][:-1]] + [list(cur["policies"][-1]) + [st]]}, "extend"))
+            else:
+                ev.append(("set" + d, gen_pol(rng)))
         elif r < 0.83:
             ev.append(("softin", p.name))
         elif r < 0.89:
@@ -199,8 +207,16 @@ def sim_line(c):
     if c["exp0"] is not ACCEPT_ALL:
         steps.append("(policy export %s)" % pol_sx(c["exp0"]))
     steps += ["(up %s%s)" % (p.name, " ap=1" if p.sendmax else "") for p in c["peers"]]
+    cur = {"setimp": c["imp0"], "setexp": c["exp0"]}
     for e in c["events"]:
         k = e[0]
+        if k in ("setimp", "setexp"):
+            prev, cur[k] = cur[k], e[1]
+            # an extension is sent as one only if it still is one (events may have been inserted or removed in between)
+            if len(e) > 2 and e[2] == "extend" and prev is not ACCEPT_ALL and prev["policies"] and prev["default"] == e[1]["default"] and \
+                    e[1]["policies"][:-1] == prev["policies"][:-1] and e[1]["policies"][-1][:-1] == prev["policies"][-1]:
+                steps.append("(polext %s %s)" % ("import" if k == "setimp" else "export", pol_sx({"default": e[1]["default"], "policies": [[e[1]["policies"][-1][-1]]]})))
+                continue
         if k == "ann":
             steps.append("(upd %s %s)" % (e[1], simlib.route_sx("a", e[2], e[3])))
         elif k == "wd":
